@@ -324,10 +324,15 @@ func (w *W) c15Program(k int) {
 					ser.CompressMode(compModes[1+r.Intn(3)])
 					bad := ser.Serialize(nil, *src)
 					if len(bad) > 24 {
+						orig := append([]byte{}, bad...)
 						for k := 0; k < 3; k++ {
 							bad[len(bad)/3+r.Intn(len(bad)-len(bad)/3)] ^= byte(1 + r.Intn(255))
 						}
-						ser.Deserialize(bad, serDst)
+						if damageAllocatable(orig, bad) {
+							ser.Deserialize(bad, serDst)
+						} else {
+							w.Count("damaged_blobs_declaring_huge_sizes_skipped", 1)
+						}
 					}
 					ser.CompressMode(mode)
 					return nil
